@@ -75,16 +75,102 @@ def kind_of(e):
     return type(e).__name__
 
 
+class Collector:
+    """Stand-in for common.Check inside `replay`: collects failures, writes no file."""
+
+    class _Cov(dict):
+        def __missing__(self, k):
+            return 0
+
+    def __init__(self, pid, seed=0):
+        import random
+
+        self.pid, self.tier, self.seed = pid, "quick", seed
+        self.rng = random.Random(seed)
+        self.coverage = Collector._Cov()
+        self.notes, self.assumptions, self.violations, self.fails = [], [], [], []
+        self.known = common.known_findings(pid)
+
+    def fail(self, key, what, replay=None, no_failing_input=False):
+        self.fails.append((key, what))
+        return "violation"
+
+    def is_known(self, key):
+        import re
+
+        return any(key == e["key"] or key.startswith(e["key"] + ":") or re.fullmatch(e.get("key_regex", "(?!)"), key) for e in self.known)
+
+    def relevant(self, want):
+        """failures that count for a replay: the recorded key itself, or anything that is not a listed known finding"""
+        return [(k, w) for k, w in self.fails if k == want or not self.is_known(k)]
+
+
+HEADER_REF = ["Unknown or invalid structure format.", "Errors per each tested structure format:"]
+
+
+def reference_order(entries, filename):
+    """candidate order by the documented rule, with Python's own fnmatch; entries = [(name, pattern, has_input)]
+    (written independently of the Lean model and of the generated tables)"""
+    import os.path
+    from fnmatch import fnmatch
+
+    names = sorted(f for f, p, hi in entries if hi and f != "auto")
+    if not filename:
+        return names
+    base = os.path.basename(filename)
+    pat = {f: p for f, p, hi in entries}
+    hit = [f for f in names if pat[f] not in ("*.*", "*") and any(fnmatch(base, q) for q in pat[f].split("|"))]
+    return hit[::-1] + [f for f in names if f not in hit]
+
+
+def registry_entries():
+    from diffpy.structure.parsers import parser_index
+
+    return [(f, p["file_pattern"], bool(p["has_input"])) for f, p in parser_index.items()]
+
+
+def reference_auto(order, outcome_of):
+    """The documented behaviour of automatic detection as a plain Python walk (independent of the model):
+    format errors become complaint lines, NotImplementedError is skipped, the first structure wins, any other exception
+    escapes unchanged; a `None` result ends the walk with the format error (current behaviour, known finding auto-none).
+    outcome_of(f) -> ('ok', ...) | ('none',) | ('err', kind name, message).  Returns (result, candidates called)."""
+    msgs, tried = [], []
+    for f in order:
+        o = outcome_of(f)
+        tried.append(f)
+        if o[0] == "ok":
+            return ("ok", f), tried
+        if o[0] == "none":
+            break
+        if o[1] == "StructureFormatError":
+            msgs.append("%s: %s" % (f, o[2]))
+        elif o[1] == "NotImplementedError":
+            pass
+        else:
+            return ("err", o[1], o[2]), tried
+    return ("err", "StructureFormatError", "\n".join(HEADER_REF + msgs)), tried
+
+
+def _rf(x, nd):
+    x = float(x)
+    return "nan" if x != x else round(x, nd)      # NaN must compare equal to itself
+
+
 def sig(stru, nd=6):
     """comparable content of a structure: atoms (element, Cartesian position, occupancy, U) and lattice"""
     if stru is None:
         return None
-    lat = tuple(round(float(x), nd) for x in stru.lattice.abcABG())
+    lat = tuple(_rf(x, nd) for x in stru.lattice.abcABG())
     atoms = []
     for a in stru:
-        atoms.append((a.element, tuple(round(float(x), nd) for x in a.xyz_cartn), round(float(a.occupancy), nd),
-                      tuple(round(float(x), nd) for x in a.U.flatten())))
+        atoms.append((a.element, tuple(_rf(x, nd) for x in a.xyz_cartn), _rf(a.occupancy, nd), tuple(_rf(x, nd) for x in a.U.flatten())))
     return (lat, tuple(atoms))
+
+
+def _far(x, y, tol, rel=True):
+    if x == "nan" or y == "nan":
+        return x != y
+    return abs(x - y) > tol * (max(1.0, abs(x)) if rel else 1.0)
 
 
 def close_sig(a, b, tol):
@@ -94,14 +180,14 @@ def close_sig(a, b, tol):
     (la, aa), (lb, ab) = a, b
     if len(aa) != len(ab):
         return False
-    if any(abs(x - y) > tol * max(1.0, abs(x)) for x, y in zip(la, lb)):
+    if any(_far(x, y, tol) for x, y in zip(la, lb)):
         return False
     for (ea, xa, oa, ua), (eb, xb, ob, ub) in zip(aa, ab):
-        if ea != eb or abs(oa - ob) > tol:
+        if ea != eb or _far(oa, ob, tol, False):
             return False
-        if any(abs(x - y) > tol * max(1.0, abs(x)) for x, y in zip(xa, xb)):
+        if any(_far(x, y, tol) for x, y in zip(xa, xb)):
             return False
-        if any(abs(x - y) > tol for x, y in zip(ua, ub)):
+        if any(_far(x, y, tol, False) for x, y in zip(ua, ub)):
             return False
     return True
 
@@ -279,6 +365,63 @@ def junk_texts(rng, written):
         rows = rng.randint(1, 5)
         cols = rng.choice([1, 2, 3, 4, 5])
         out.append(("numbers", "\n".join(" ".join("%g" % rng.uniform(-5, 5) for _ in range(cols)) for _ in range(rows)) + "\n"))
+    # minimised past parser failures of all formats (texts that get deep into a parser before it gives up)
+    cdir = os.path.join(VERIF, "harness", "c13_corpus")
+    for fn in sorted(os.listdir(cdir)) if os.path.isdir(cdir) else []:
+        try:
+            d = json.load(open(os.path.join(cdir, fn), encoding="utf-8"))
+        except (OSError, ValueError):
+            continue
+        if isinstance(d, dict) and isinstance(d.get("text"), str):
+            out.append(("corpus:" + fn[:-5], d["text"]))
+    # CIF-like texts that pass the grammar but have a list / looped item where a scalar is needed
+    out.append(("cif-list:looped-cell-min", "data_x\nloop_\n_cell_length_a\n2\n_atom_site_label\nC1\n"))
+    out.append(("cif-list:cif2-cell", "#\\#CIF_2.0\ndata_x\n_cell_length_a [3 3.1]\n_cell_length_b 3\n_cell_length_c 3\n_cell_angle_alpha 90\n"
+                "_cell_angle_beta 90\n_cell_angle_gamma 90\nloop_\n_atom_site_label\n_atom_site_fract_x\n_atom_site_fract_y\n_atom_site_fract_z\nC1 0 0 0\n"))
+    cifs = [t for g, t in written if g == "cif"]
+    for t in rng.sample(cifs, min(len(cifs), 6)):
+        ls = t.split("\n")
+        scal = [i for i, l in enumerate(ls) if l.startswith("_") and len(l.split(None, 1)) == 2]
+        for i in scal:
+            item, val = ls[i].split(None, 1)
+            how = rng.choice(["loop", "cif2-list", "cif2-table"])
+            v = list(ls)
+            if how == "loop":
+                v[i] = "loop_\n%s\n%s\n%s" % (item, val, val)
+            elif how == "cif2-list":
+                v[i] = "%s [%s %s]" % (item, val, val)
+                v.insert(0, "#\\#CIF_2.0")
+            else:
+                v[i] = "%s {'a':%s}" % (item, val)
+                v.insert(0, "#\\#CIF_2.0")
+            out.append(("cif-list:%s:%s" % (how, item), "\n".join(v)))
+        rows = [i for i, l in enumerate(ls) if l.startswith("  ") and len(l.split()) >= 5 and not l.strip().startswith("_")]
+        for i in rows[:2]:
+            ws = ls[i].split()
+            j = rng.randrange(len(ws))
+            ws[j] = "[%s 1]" % ws[j]
+            v = list(ls)
+            v[i] = "  " + " ".join(ws)
+            v.insert(0, "#\\#CIF_2.0")
+            out.append(("cif-list:site-row:%d" % j, "\n".join(v)))
+    # every writer's output garbled: cut at a random line, or one random token replaced by a word
+    bywriter = {}
+    for g, t in written:
+        bywriter.setdefault(g, []).append(t)
+    for g, ts in sorted(bywriter.items()):
+        for _ in range(12):
+            t = rng.choice(ts)
+            ls = t.split("\n")
+            if rng.random() < 0.4:
+                out.append(("cut-at-line:" + g, "\n".join(ls[:rng.randrange(1, max(2, len(ls)))]) + "\n"))
+            else:
+                cand = [i for i, l in enumerate(ls) if l.split()]
+                i = rng.choice(cand)
+                ws = ls[i].split(" ")
+                nz = [j for j, w in enumerate(ws) if w]
+                ws[rng.choice(nz)] = rng.choice(["word", "?", ".", "1e999", "-", "nan", "[1 2]", "''", "0x10", "1,5", "1.2.3", "()"])
+                ls[i] = " ".join(ws)
+                out.append(("token-replaced:" + g, "\n".join(ls)))
     for _ in range(80):
         g, t = rng.choice(written)
         cut = rng.randrange(0, max(1, len(t) - 1))
@@ -296,7 +439,7 @@ def junk_texts(rng, written):
 
 # ---- oracles ----------------------------------------------------------------------------
 
-def judge(case, matrix, order_names, got, model, header):
+def judge(case, matrix, order_names, got, model, header, ref=None):
     """Returns list of (key, what) failures of one automatic load.
 
     `matrix`: format -> observed outcome of its own parser (same entry kind); `got`: what auto did;
@@ -322,6 +465,17 @@ def judge(case, matrix, order_names, got, model, header):
                 fails.append(("model-vs-impl:%s" % case["stream"], "model predicts %s, auto gave %s" % (model[1], got[:2] if got[0] == "err" else "success (%r)" % got[1])))
             elif got[2] != model[2]:
                 fails.append(("model-vs-impl:%s:message" % case["stream"], "messages differ: model %r, auto %r" % (model[2][:300], got[2][:300])))
+    # ---- the documented decision walk (plain Python, Python's own fnmatch) on the observed per-format outcomes
+    if ref is not None:
+        if ref[0] == "ok":
+            if got[0] != "ok" or (got[1] is not None and got[1] != ref[1]) or sig(got[2]) != sig(matrix[ref[1]][1]):
+                fails.append(("oracle:auto-vs-reference:%s" % case["stream"], "the first candidate (file-name order) that accepts is %r; auto gave %s" % (
+                    ref[1], ("format %r" % got[1]) if got[0] == "ok" else "%s: %s" % (got[1], got[2][:200]))))
+        elif got[0] != "err" or got[1] != ref[1]:
+            fails.append(("oracle:auto-vs-reference:%s" % case["stream"], "the candidates' outcomes demand %s; auto gave %s" % (
+                ref[1], "success (%r)" % got[1] if got[0] == "ok" else got[1])))
+        elif got[2] != ref[2]:
+            fails.append(("oracle:auto-vs-reference:%s:message" % case["stream"], "message %r; documented form %r" % (got[2][:300], ref[2][:300])))
     # ---- independent oracle of the property statement
     if got[0] == "ok":
         f = got[1]
@@ -526,21 +680,33 @@ def run_probe_case(pr, entries, script, filename, method):
     return got, list(pr.calls)
 
 
-def _spec_order(entries, fn, method):
-    """candidate order by the documented rule, computed with Python's own fnmatch (independent of the model)"""
-    import os.path
-    from fnmatch import fnmatch
+def probe_oracle(entries, script, fn, got, calls):
+    """(key, what) when the real P_auto deviates from the reference walk on a scripted case, else (None, None)"""
+    def outcome_of(f):
+        act = script[f]
+        if act[0] != "err":
+            return act
+        ex = act[1](act[2])
+        return ("err", kind_of(ex), str(ex))
 
-    names = sorted(f for f, p, hi in entries if hi)
-    if not fn:
-        return names
-    base = os.path.basename(fn)
-    pat = {f: p for f, p, hi in entries}
-    hit = [f for f in names if pat[f] not in ("*.*", "*") and any(fnmatch(base, q) for q in pat[f].split("|"))]
-    return hit[::-1] + [f for f in names if f not in hit]
+    ref, rtried = reference_auto(reference_order(entries, fn), outcome_of)
+    has_none = any(script[f][0] == "none" for f in rtried)
+    if ref[0] == "ok":
+        if got[0] != "ok" or got[1] != ref[1]:
+            return "probe-oracle:first-success-not-returned", "the first accepting candidate is %r, auto gave %r" % (ref[1], got[:2])
+    elif got[0] != "err" or got[1] != ref[1]:
+        if ref[1] != "StructureFormatError":
+            return "probe-oracle:foreign-swallowed:%s" % ref[1], "candidate raising %s must make auto raise it, auto gave %r" % (ref[1], got[:2])
+        k = "probe-oracle:none-result" if has_none else "probe-oracle:wrong-failure:%s" % (got[1] if got[0] == "err" else "success")
+        return k, "no candidate accepts: the format error is demanded, auto gave %r" % (got[:2],)
+    elif got[2] != ref[2]:
+        return "probe-oracle:message", "message %r, documented form %r" % (got[2][:300], ref[2][:300])
+    if calls != rtried:
+        return "probe-oracle:candidates-called", "parsers called %r, documented order/stop rule gives %r" % (calls, rtried)
+    return None, None
 
 
-def probe_stream(ck):
+def probe_stream(ck, drift):
     rng = ck.rng
     pr = _Probe()
     excs = probe_exceptions()
@@ -606,37 +772,14 @@ def probe_stream(ck):
             bad = "model refused: %r" % (model,)
         if bad is None and tried != calls:
             bad = "candidates tried: model %r, code %r" % (tried, calls)
-        # independent oracle of the statement (does not use the generated exception table): walking the candidates the code
-        # itself called, format errors are complaints, NotImplementedError is skipped, the first structure wins, any other
-        # exception must escape unchanged
-        spec = None
-        from diffpy.structure.structureerrors import StructureFormatError as _SFE
-
-        for f in _spec_order(entries, fn, method):
-            act = script[f]
-            if act[0] == "ok":
-                spec = ("ok", f)
-                break
-            if act[0] == "none":
-                spec = None      # the statement does not say what a parser returning None means
-                break
-            if issubclass(act[1], _SFE) or issubclass(act[1], NotImplementedError):
-                continue
-            spec = ("err", kind_of(act[1](act[2])))
-            break
-        else:
-            spec = ("err", "StructureFormatError")
-        if spec is not None and (got[0] != spec[0] or got[1] != spec[1]):
-            okey = "probe-oracle:%s" % ("foreign-swallowed:%s" % spec[1] if spec[0] == "err" and spec[1] != "StructureFormatError" else
-                                        ("first-success-not-returned" if spec[0] == "ok" else "wrong-failure"))
-            ck.fail(okey, "scripted registry %r, outcomes %r, file name %r via %s: the statement demands %r, auto gave %r" % (
-                [(f, p) for f, p, _ in entries], desc["script"], fn, method, spec, got[:2]), desc)
-        if bad:
-            first = calls[-1] if calls else "none"
-            act = script.get(first, ("?",))
-            key = "probe:%s:%s" % (act[0], act[1].__name__ if act[0] == "err" else "-")
-            ck.fail(key, "scripted registry %r, outcomes %r, file name %r via %s: %s" % (
-                [(f, p) for f, p, _ in entries], desc["script"], fn, method, bad), desc)
+        # independent oracle: the documented behaviour as a plain Python walk (no generated table, Python's own fnmatch)
+        okey, owhat = probe_oracle(entries, script, fn, got, calls)
+        if okey:
+            ck.fail(okey, "scripted registry %r, outcomes %r, file name %r via %s: %s" % (
+                [(f, p) for f, p, _ in entries], desc["script"], fn, method, owhat), desc)
+        if bad and not okey:
+            drift.append(("model-vs-impl:probe", "scripted registry %r, outcomes %r, file name %r via %s: %s" % (
+                [(f, p) for f, p, _ in entries], desc["script"], fn, method, bad), desc))
         elif sample is None and len(calls) > 2:
             sample = {"probe": desc["script"], "registry": entries, "filename": fn, "model": o, "code": list(got)}
     ck.coverage["distinct_nontrivial"] += nontrivial
@@ -730,20 +873,22 @@ def evaluate_cases(ck, cases, formats, header, newfile):
     lines = ["auto.run gen %s %s" % ("-" if p is None else hx(p), outcomes_word(m)) for c, p, m, g in prepared]
     olines = ["auto.order gen %s" % ("-" if p is None else hx(p)) for c, p, m, g in prepared]
     out = common.driver(lines + olines)
+    entries = registry_entries()
     res = []
     for i, (c, path, matrix, got) in enumerate(prepared):
         model, tried = parse_model_auto(out[i])
         order = [unhx(w) for w in out[len(prepared) + i].split(",") if w]
         if sorted(order) != sorted(formats):
             order = list(formats)
-        fails = judge(c, matrix, order, got, model, header)
+        ref, _ = reference_auto(reference_order(entries, path), lambda f: matrix[f])
+        fails = judge(c, matrix, order, got, model, header, ref)
         res.append((c, path, matrix, got, model, fails))
     return res
 
 
 def replay_dict(c, path, matrix, got, model):
     return {"kind": c["stream"], "entry": c["entry"], "written_format": c.get("written"), "hint": c.get("hint"), "ext": c.get("ext"),
-            "text": c["text"], "structure": c.get("stru"), "junkkind": c.get("junkkind"),
+            "text": c["text"], "structure": c.get("stru"), "junkkind": c.get("junkkind"), "odd_title": c.get("odd_title"), "title": c.get("title"),
             "observed_per_format": {f: (o[0],) + tuple(o[1:3] if o[0] == "err" else ()) for f, o in matrix.items()},
             "observed_auto": [got[0], got[1], (got[2] if got[0] == "err" else None)],
             "expected_model": list(model) if model else None}
@@ -767,6 +912,7 @@ def run(ck):
         "written documents. distinct_nontrivial = cases in which auto called more than one parser (or, for the order stream, the order "
         "differs from the alphabetical one)")
     samples = []
+    drift = []
     tmp = tempfile.mkdtemp(prefix="verif_c12_")
     try:
         from diffpy.structure.parsers import inputFormats
@@ -774,7 +920,7 @@ def run(ck):
         formats = [f for f in inputFormats() if f != "auto"]
         exts = all_extensions(rep["entries"])
         order_stream(ck, rep, formats, exts)
-        ps = probe_stream(ck)
+        ps = probe_stream(ck, drift)
         if ps:
             samples.append(ps)
         cases, formats, header, newfile, skipped = load_cases(ck, rep, tmp)
@@ -792,11 +938,18 @@ def run(ck):
             if got[0] == "err" or (got[1] is not None and formats and got[1] != formats[0]) or c["hint"] in ("matching", "misleading"):
                 ck.coverage["distinct_nontrivial"] += 1
             seen = set()
+            where = "%s text, hint %s%s, via %s" % (c.get("written") or c.get("junkkind"), c["hint"], "(%s)" % c["ext"] if c.get("ext") else "", c["entry"])
+            confirmed = [k for k, w in fails if not k.startswith("model-vs-impl")]
             for key, what in fails:
                 if key in seen:
                     continue
                 seen.add(key)
-                where = "%s text, hint %s%s, via %s" % (c.get("written") or c.get("junkkind"), c["hint"], "(%s)" % c["ext"] if c.get("ext") else "", c["entry"])
+                if key.startswith("model-vs-impl"):
+                    # a disagreement with the model is a verdict only through the oracles: if they fail on this case they are
+                    # reported (concrete input); if they pass, the model / translator no longer mirrors the code (reported once)
+                    if not confirmed:
+                        drift.append((key, "%s: %s" % (where, what), replay_dict(c, path, matrix, got, model)))
+                    continue
                 ck.fail(key, "%s: %s" % (where, what), replay_dict(c, path, matrix, got, model))
         ck.coverage["distribution"] = dict(sorted(hist.items()))
         # the 7x7 matrix hypothesis `RejectOrAgree` as observed: written format -> parser -> what it did with the text
@@ -835,6 +988,14 @@ def run(ck):
                 break
     finally:
         shutil.rmtree(tmp, ignore_errors=True)
+    # model / code disagreements that no oracle confirms: one report per stream, naming the model
+    for stream in sorted({d[0] for d in drift}):
+        ds_ = [d for d in drift if d[0] == stream]
+        rp = dict(ds_[0][2])
+        rp.update({"kind": "model-drift", "case_kind": ds_[0][2].get("kind"), "theorem": "DS.Load.auto / DS.Load.orderFor (correspondence stream %s)" % stream,
+                   "count": len(ds_)})
+        ck.fail(stream, "%d case(s) where the Lean model and the code disagree while the documented behaviour (reference walk, oracles) holds "
+                "on the code, e.g. %s" % (len(ds_), ds_[0][1]), rp, no_failing_input=True)
     # translator findings
     for p in rep["problems"]:
         ck.fail("translator:" + p.split(" ")[0], "translate/registry.py: " + p, {"kind": "translator", "detail": p}, no_failing_input=True)
@@ -863,34 +1024,39 @@ def run(ck):
 
 
 def replay(path):
+    """Re-executes exactly the recorded case on the tree selected by VERIF_REPO; 1 iff the property still fails on it.
+
+    Expected behaviour is recomputed from the statement (reference walk + oracles), never taken from the stored model output;
+    listed known findings do not count unless the replay file is about that finding."""
     common.use_repo()
     r = json.load(open(path))
     kind = r.get("kind")
+    want = r.get("key", "")
+    col = Collector("C12")
     if kind == "order":
         from diffpy.structure.parsers.p_auto import P_auto
 
         p = P_auto()
         p.filename = r["filename"]
         real = p._getOrderedFormats()
-        print("file name %r: _getOrderedFormats -> %r; model said %r" % (r["filename"], real, r["expected_model"]))
-        return 1 if real != r["expected_model"] else 0
+        ref = reference_order(registry_entries(), r["filename"])
+        print("file name %r: _getOrderedFormats -> %r; documented order %r" % (r["filename"], real, ref))
+        return 1 if real != ref else 0
     if kind == "probe":
         pr = _Probe()
         excmap = {c.__name__: c for c in probe_exceptions()}
         script = {}
         for f, a in r["script"].items():
             script[f] = (a[0],) if a[0] != "err" else ("err", excmap[a[1]], a[2])
-        got, calls = run_probe_case(pr, [tuple(e) for e in r["registry"]], script, r["filename"], r["method"])
-        model, tried = parse_model_auto(r["expected_model"])
-        print("scripted registry %r\n outcomes %r\n file name %r via %s\n code : %r calls %r\n model: %r tried %r" % (
-            r["registry"], r["script"], r["filename"], r["method"], got, calls, model, tried))
-        if model[0] == "ok":
-            bad = got[0] != "ok" or got[1] != model[1]
-        else:
-            bad = got[0] != "err" or got[1] != model[1] or got[2] != model[2]
-        return 1 if bad or tried != calls else 0
+        entries = [tuple(e) for e in r["registry"]]
+        got, calls = run_probe_case(pr, entries, script, r["filename"], r["method"])
+        okey, owhat = probe_oracle(entries, script, r["filename"], got, calls)
+        print("scripted registry %r\n outcomes %r\n file name %r via %s\n code : %r calls %r" % (
+            r["registry"], r["script"], r["filename"], r["method"], got, calls))
+        if okey:
+            print("FAILS", okey, owhat)
+        return 1 if okey and (okey == want or not col.is_known(okey)) else 0
     if kind in ("written", "junk"):
-        sys.path.insert(0, VERIF)
         from diffpy.structure.parsers import inputFormats
 
         formats = [f for f in inputFormats() if f != "auto"]
@@ -904,21 +1070,34 @@ def replay(path):
                     f.write(r["text"])
             matrix = matrix_for(formats, mode, r["text"], p)
             got = run_auto(r["entry"], r["text"], p)
-            c = {"stream": kind, "entry": r["entry"], "written": r.get("written_format")}
-            from diffpy.structure.parsers.p_auto import P_auto
-
-            pa = P_auto()
-            pa.filename = p
-            order = pa._getOrderedFormats()
-            fails = judge(c, matrix, order, got, None, ["Unknown or invalid structure format.", "Errors per each tested structure format:"])
+            c = {"stream": kind, "entry": r["entry"], "written": r.get("written_format"), "odd_title": r.get("odd_title"), "title": r.get("title")}
+            order = reference_order(registry_entries(), p)
+            order = [f for f in order if f in matrix] + [f for f in matrix if f not in order]
+            ref, _ = reference_auto(order, lambda f: matrix[f])
+            fails = judge(c, matrix, order, got, None, HEADER_REF, ref)
             print("entry %s, file %r, text %r" % (r["entry"], p and os.path.basename(p), r["text"][:200]))
             print("per-format:", {f: (o[0] if o[0] != "err" else o[1:3]) for f, o in matrix.items()})
             print("auto:", got[:2], (got[2][:300] if got[0] == "err" else ""))
-            for k, w in fails:
+            col.fails = fails
+            rel = col.relevant(want)
+            for k, w in rel:
                 print("FAILS", k, w)
-            want = r.get("key")
-            return 1 if any(k == want or want is None or k.split(":")[0] == want.split(":")[0] for k, w in fails) else 0
+            return 1 if rel else 0
         finally:
             shutil.rmtree(tmp, ignore_errors=True)
-    print("nothing to replay on the implementation (%s): %s" % (kind, r.get("what")))
-    return 1
+    if kind in ("translator", "translator-shape", "proof-obligation", "model-drift", "fnmatch"):
+        # the statement-level content of these: the except clauses of _wrapParseMethod swallow exactly the two documented kinds
+        sys.path.insert(0, VERIF)
+        from translate import registry
+
+        tmp = tempfile.mkdtemp(prefix="verif_c12_replay_")
+        try:
+            rep = registry.main(tmp, None)
+        finally:
+            shutil.rmtree(tmp, ignore_errors=True)
+        table = sorted(tuple(x) for x in rep["handler_table_nonescape"])
+        bad = rep["problems"] or table != [("NotImplementedError", "skip"), ("StructureFormatError", "collect")]
+        print("translator problems %r; swallowed kinds %r; flags %r" % (rep["problems"], table, rep["flags"]))
+        return 1 if bad else 0
+    print("nothing to re-execute on the implementation (%s): %s" % (kind, r.get("what")))
+    return 0
